@@ -1,5 +1,5 @@
-\* C26 thorough: as quick, plus corruptions followed by trailing bytes, every two-byte string, long vectors
-\* (3-byte length prefixes).
+\* C26 thorough: as quick, plus corruptions followed by trailing bytes, every two-byte string, longer
+\* vec<u8> / strings (129, 300, 1000 elements; recursive operators over sequences are quadratic in TLC).
 SPECIFICATION Spec
 CONSTANTS CorruptWithTrailer = TRUE  AllPairs = TRUE
   LongLens <- LongThorough
